@@ -705,22 +705,106 @@ func (h *harness) shrink(c Case, f failure, key string) (Case, failure) {
 			func(d *Case) bool { ok := d.Async != "sync"; d.Async = "sync"; return ok },
 			func(d *Case) bool { ok := d.Tie == "seeded"; d.Tie = "reverse-id"; return ok },
 			func(d *Case) bool { ok := d.Tie != "id"; d.Tie = "id"; return ok },
-			func(d *Case) bool { if d.Req == nil || !d.Req.Vars { return false }; d.Req.Vars = false; return true },
-			func(d *Case) bool { if d.Req == nil || d.Req.After == nil { return false }; d.Req.After = nil; return true },
-			func(d *Case) bool { if d.Req == nil || d.Req.Before == nil { return false }; d.Req.Before = nil; return true },
-			func(d *Case) bool { if d.Req == nil || d.Req.AtOrAfter == nil { return false }; d.Req.AtOrAfter = nil; return true },
-			func(d *Case) bool { if d.Req == nil || d.Req.BeforeT == nil { return false }; d.Req.BeforeT = nil; return true },
+			func(d *Case) bool {
+				if d.Req == nil || !d.Req.Vars {
+					return false
+				}
+				d.Req.Vars = false
+				return true
+			},
+			func(d *Case) bool {
+				if d.Req == nil || d.Req.After == nil {
+					return false
+				}
+				d.Req.After = nil
+				return true
+			},
+			func(d *Case) bool {
+				if d.Req == nil || d.Req.Before == nil {
+					return false
+				}
+				d.Req.Before = nil
+				return true
+			},
+			func(d *Case) bool {
+				if d.Req == nil || d.Req.AtOrAfter == nil {
+					return false
+				}
+				d.Req.AtOrAfter = nil
+				return true
+			},
+			func(d *Case) bool {
+				if d.Req == nil || d.Req.BeforeT == nil {
+					return false
+				}
+				d.Req.BeforeT = nil
+				return true
+			},
 			func(d *Case) bool { return d.Req != nil && dec1(&d.Req.First) },
 			func(d *Case) bool { return d.Req != nil && dec1(&d.Req.Last) },
-			func(d *Case) bool { if d.Req == nil || !d.Req.SelTC { return false }; d.Req.SelTC = false; return true },
-			func(d *Case) bool { if d.Req == nil || !d.Req.SelPI { return false }; d.Req.SelPI = false; return true },
-			func(d *Case) bool { if d.Walk == nil || d.Walk.AtOrAfter == nil { return false }; d.Walk.AtOrAfter = nil; return true },
-			func(d *Case) bool { if d.Walk == nil || d.Walk.BeforeT == nil { return false }; d.Walk.BeforeT = nil; return true },
-			func(d *Case) bool { if d.Walk == nil || d.Walk.N <= 1 { return false }; d.Walk.N--; return true },
-			func(d *Case) bool { if d.Q == nil || d.Q.After == nil { return false }; d.Q.After = nil; return true },
-			func(d *Case) bool { if d.Q == nil || d.Q.Before == nil { return false }; d.Q.Before = nil; return true },
-			func(d *Case) bool { if d.Q == nil || d.Q.AtOrAfter == nil { return false }; d.Q.AtOrAfter = nil; return true },
-			func(d *Case) bool { if d.Q == nil || d.Q.BeforeT == nil { return false }; d.Q.BeforeT = nil; return true },
+			func(d *Case) bool {
+				if d.Req == nil || !d.Req.SelTC {
+					return false
+				}
+				d.Req.SelTC = false
+				return true
+			},
+			func(d *Case) bool {
+				if d.Req == nil || !d.Req.SelPI {
+					return false
+				}
+				d.Req.SelPI = false
+				return true
+			},
+			func(d *Case) bool {
+				if d.Walk == nil || d.Walk.AtOrAfter == nil {
+					return false
+				}
+				d.Walk.AtOrAfter = nil
+				return true
+			},
+			func(d *Case) bool {
+				if d.Walk == nil || d.Walk.BeforeT == nil {
+					return false
+				}
+				d.Walk.BeforeT = nil
+				return true
+			},
+			func(d *Case) bool {
+				if d.Walk == nil || d.Walk.N <= 1 {
+					return false
+				}
+				d.Walk.N--
+				return true
+			},
+			func(d *Case) bool {
+				if d.Q == nil || d.Q.After == nil {
+					return false
+				}
+				d.Q.After = nil
+				return true
+			},
+			func(d *Case) bool {
+				if d.Q == nil || d.Q.Before == nil {
+					return false
+				}
+				d.Q.Before = nil
+				return true
+			},
+			func(d *Case) bool {
+				if d.Q == nil || d.Q.AtOrAfter == nil {
+					return false
+				}
+				d.Q.AtOrAfter = nil
+				return true
+			},
+			func(d *Case) bool {
+				if d.Q == nil || d.Q.BeforeT == nil {
+					return false
+				}
+				d.Q.BeforeT = nil
+				return true
+			},
 		}
 		for _, m := range muts {
 			if try(m) {
